@@ -1828,7 +1828,7 @@ sc_io_read_at_all (sc_MPI_File mpifile, sc_MPI_Offset offset, void *ptr,
   /* WARNING: This code and configuration case is deprecated. */
 
   {
-    int                 mpisize, rank, count, size;
+    int                 mpisize, rank, rcount, size;
     int                 active, errval;
 
     mpisize = mpifile->mpisize;
@@ -1847,9 +1847,9 @@ sc_io_read_at_all (sc_MPI_File mpifile, sc_MPI_Offset offset, void *ptr,
                             rank - 1, sc_MPI_ANY_TAG,
                             mpifile->mpicomm, &mpistatus);
       SC_CHECK_MPI (mpiret);
-      mpiret = sc_MPI_Get_count (&mpistatus, sc_MPI_INT, &count);
+      mpiret = sc_MPI_Get_count (&mpistatus, sc_MPI_INT, &rcount);
       SC_CHECK_MPI (mpiret);
-      SC_CHECK_ABORT (count == 1, "MPI receive");
+      SC_CHECK_ABORT (rcount == 1, "MPI receive");
     }
 
     /* active == -1 means process is active */
@@ -2120,7 +2120,7 @@ sc_io_write_at_all (sc_MPI_File mpifile, sc_MPI_Offset offset,
    * C-standard then fseek does not work.
    */
   {
-    int                 mpisize, rank, count, size;
+    int                 mpisize, rank, rcount, size;
     int                 active, errval;
 
     mpisize = mpifile->mpisize;
@@ -2139,9 +2139,9 @@ sc_io_write_at_all (sc_MPI_File mpifile, sc_MPI_Offset offset,
                             rank - 1, sc_MPI_ANY_TAG,
                             mpifile->mpicomm, &mpistatus);
       SC_CHECK_MPI (mpiret);
-      mpiret = sc_MPI_Get_count (&mpistatus, sc_MPI_INT, &count);
+      mpiret = sc_MPI_Get_count (&mpistatus, sc_MPI_INT, &rcount);
       SC_CHECK_MPI (mpiret);
-      SC_CHECK_ABORT (count == 1, "MPI receive");
+      SC_CHECK_ABORT (rcount == 1, "MPI receive");
     }
 
     /* active == -1 means process is active */
